@@ -5,6 +5,7 @@ package websocket
 import (
 	"bufio"
 	"encoding/binary"
+	"errors"
 	"fmt"
 	"io"
 	"math"
@@ -47,6 +48,11 @@ type header struct {
 	maskKey uint32
 }
 
+// errNegativePayloadLength is a protocol violation by the peer (the most
+// significant bit of a 64 bit length must be 0), unlike the transport errors
+// readFrameHeader otherwise returns.
+var errNegativePayloadLength = errors.New("received negative payload length")
+
 // readFrameHeader reads a header from the reader.
 // See https://tools.ietf.org/html/rfc6455#section-5.2.
 func readFrameHeader(r *bufio.Reader, readBuf []byte) (h header, err error) {
@@ -87,7 +93,7 @@ func readFrameHeader(r *bufio.Reader, readBuf []byte) (h header, err error) {
 	}
 
 	if h.payloadLength < 0 {
-		return header{}, fmt.Errorf("received negative payload length: %v", h.payloadLength)
+		return header{}, fmt.Errorf("%w: %v", errNegativePayloadLength, h.payloadLength)
 	}
 
 	if h.masked {
